@@ -914,6 +914,10 @@ class SQLTranspiler(StructureVisitor, ASTTemplate):
             cols.append(f"{quote_name(comp_name)} AS {quote_name(alias_name)}")
         else:
             cols.append(quote_name(comp_name))
+        # Viral attributes are kept by membership (Membership.validate).
+        for name, comp in ds.components.items():
+            if comp.role == Role.VIRAL_ATTRIBUTE and name != comp_name:
+                cols.append(quote_name(name))
 
         return SQLBuilder().select(*cols).from_table(table_src).build()
 
